@@ -2,11 +2,15 @@
 
 Model: coq/PostRender/Model.v   Theorems: coq/Props/C14.v
 Correspondence: generated programs (component library + page: elements, text, components plain and through
-DynamicComponent, default slot / implicit fill, loops) are rendered by the implementation; the final HTML is parsed
-with html.parser; the element structure with the `data-djc-id-*` sets is compared with what the Coq model
-(expansion -> deferred-render queue) computes for the same program (vm_compute inside Coq).  Independently of the
-model, a direct oracle checks the property on the implementation's output: components echo `Component.id` in
-begin/end text markers, which delimit the instance's output in the final HTML.
+DynamicComponent, two slot names with default content, implicit and named fills, slots inside fills and slot
+defaults, slot pass-through into child components, {% for %}, {% if %}, components rendered from Python while a
+template is being rendered - lazily evaluated variable / on_render_before hook) are rendered by the implementation in
+both context behaviours; the final HTML is parsed with html.parser; the element structure with the `data-djc-id-*`
+sets, the number of instances and the number of RE-ENTRANT root runs (a component rendered without a parent while
+another component's template is being rendered) are compared with what the Coq model (expansion -> deferred-render
+queue with nested root runs on the shared global tables) computes for the same program (vm_compute inside Coq).
+Independently of the model, a direct oracle checks the property on the implementation's output: every component
+echoes `Component.id` in begin/end text markers, which delimit the instance's output in the final HTML.
 """
 import html.parser
 import itertools
@@ -22,9 +26,16 @@ IMPORTS = "From DJC Require Import Lib.Base PostRender.Model."
 TAGS = ["div", "span", "section", "p", "ul", "li"]
 TAGN = {t: i + 1 for i, t in enumerate(TAGS)}
 ATTR = "data-djc-id-"
+SLOTS = ["content", "aux"]          # slot 0 carries the `default` flag
+CTX_KEY = "_DJC_COMPONENT_CTX"
 
 # ------------------------------------------------------------------------------------------------
-# programs:  ("E", tag, kids, extra_attr) | ("T",) | ("C", k, dyn, fill) | ("S", dflt) | ("R", n, body)
+# programs:  ("E", tag, kids, extra_attr) | ("T",) | ("C", k, dyn, fills) | ("S", slot, dflt) | ("R", n, body)
+#            | ("I", cond, body) | ("P", k, via)
+#   fills: list of (slot index, forest, explicit)   explicit=False: body written without {% fill %} (slot 0 only)
+#   P: component k rendered from Python while the surrounding template renders; via = "lazy" (callable context
+#      variable, evaluated where {{ v }} stands), "lazy-deps" (same, render_dependencies=True), "before"
+#      (on_render_before hook puts the HTML into the context)
 # lib: list of (template forest, marked)    page: forest
 # ------------------------------------------------------------------------------------------------
 
@@ -36,39 +47,78 @@ def E(tag, *kids, attr=""):
 T = ("T",)
 
 
-def Cc(k, *fill, dyn=False):
-    return ("C", k, dyn, list(fill))
+def Cc(k, *fill, dyn=False, fills=None):
+    if fills is None:
+        fills = [(0, list(fill), False)] if fill else []
+    return ("C", k, dyn, [(f[0], list(f[1]), bool(f[2]) if len(f) > 2 else True) for f in fills])
 
 
-def S(*dflt):
-    return ("S", list(dflt))
+def S(*dflt, name=0):
+    return ("S", name, list(dflt))
 
 
 def R(n, *body):
     return ("R", n, list(body))
 
 
-def src_forest(f, names):
+def If(c, *body):
+    return ("I", bool(c), list(body))
+
+
+def P(k, via="lazy"):
+    return ("P", k, via)
+
+
+def subforests(t):
+    k = t[0]
+    if k in ("E", "R", "I", "S"):
+        return [t[2]]
+    if k == "C":
+        return [f[1] for f in t[3]]
+    return []
+
+
+def has_py(f):
+    return any(t[0] == "P" or any(has_py(x) for x in subforests(t)) for t in f)
+
+
+def src_forest(f, names, ctx):
+    """Template source. ctx = {"prefix": str, "vars": []}: every P node gets a context variable of its own."""
     out = []
     for t in f:
         k = t[0]
         if k == "E":
-            out.append("<%s%s>%s</%s>" % (t[1], t[3], src_forest(t[2], names), t[1]))
+            out.append("<%s%s>%s</%s>" % (t[1], t[3], src_forest(t[2], names, ctx), t[1]))
         elif k == "T":
             out.append("tx")
         elif k == "C":
             head = '"%s"' % names[t[1]] if not t[2] else '"c14dyn" is="%s"' % names[t[1]]
-            if t[3]:
-                out.append("{%% component %s %%}%s{%% endcomponent %%}" % (head, src_forest(t[3], names)))
-            else:
+            if not t[3]:
                 out.append("{%% component %s / %%}" % head)
+            elif len(t[3]) == 1 and t[3][0][0] == 0 and not t[3][0][2] and t[3][0][1] and not has_py(t[3][0][1]):
+                # (a body without fill tags is rendered once more while the fills are collected: a Python-rendered
+                #  component in there would be rendered twice - such bodies are written with an explicit {% fill %})
+                out.append("{%% component %s %%}%s{%% endcomponent %%}" % (head, src_forest(t[3][0][1], names, ctx)))
+            else:
+                body = "".join('{%% fill "%s" %%}%s{%% endfill %%}' % (SLOTS[s], src_forest(b, names, ctx)) for s, b, _e in t[3])
+                out.append("{%% component %s %%}%s{%% endcomponent %%}" % (head, body))
         elif k == "S":
-            out.append('{%% slot "content" default %%}%s{%% endslot %%}' % src_forest(t[1], names))
+            out.append('{%% slot "%s"%s %%}%s{%% endslot %%}' % (SLOTS[t[1]], " default" if t[1] == 0 else "", src_forest(t[2], names, ctx)))
         elif k == "R":
-            out.append('{%% for _i in "%s" %%}%s{%% endfor %%}' % ("x" * t[1], src_forest(t[2], names)))
+            out.append('{%% for _i in "%s" %%}%s{%% endfor %%}' % ("x" * t[1], src_forest(t[2], names, ctx)))
+        elif k == "I":
+            out.append('{%% if %d %%}%s{%% endif %%}' % (1 if t[1] else 0, src_forest(t[2], names, ctx)))
+        elif k == "P":
+            v = "%s_%d" % (ctx["prefix"], len(ctx["vars"]))
+            ctx["vars"].append((v, t[1], t[2]))
+            out.append("{{ %s }}" % v)
         else:
             raise ValueError(t)
     return "".join(out)
+
+
+def show(f, n):
+    return src_forest(f, ["c%d" % i for i in range(n)], {"prefix": "py", "vars": []})
 
 
 def coq_forest(f):
@@ -80,40 +130,36 @@ def coq_forest(f):
         elif k == "T":
             out.append("TText")
         elif k == "C":
-            out.append("TComp %s %s %s" % (cN(t[1]), C.cbool(t[2]), coq_forest(t[3])))
+            out.append("TComp %s %s %s" % (cN(t[1]), C.cbool(t[2]),
+                                          clist(["(%s, %s)" % (cN(s), coq_forest(b)) for s, b, _e in t[3]])))
         elif k == "S":
-            out.append("TSlot %s" % coq_forest(t[1]))
-        else:
+            out.append("TSlot %s %s" % (cN(t[1]), coq_forest(t[2])))
+        elif k == "R":
             out.append("TRep %d%%nat %s" % (t[1], coq_forest(t[2])))
+        elif k == "I":
+            out.append("TIf %s %s" % (C.cbool(t[1]), coq_forest(t[2])))
+        else:
+            out.append("TPy %s" % cN(t[1]))
     return clist(out)
 
 
-def coq_prog(lib, page):
-    return "{| lib := %s; page := %s |}" % (
-        clist(["(%s, %s)" % (cN(i), coq_forest(f)) for i, (f, _m) in enumerate(lib)]), coq_forest(page))
-
-
-def forest_depth(f):
-    d = 0
-    for t in f:
-        k = t[0]
-        sub = t[2] if k in ("E", "R") else t[3] if k == "C" else t[1] if k == "S" else []
-        d = max(d, 1 + forest_depth(sub))
-    return d
-
-
-def fuel_for(lib, page):
-    # every expansion step descends one template level or enters one library template / fill; libraries are
-    # acyclic (component k only names components > k) so (levels per template + 1) * (components + 1) * 2 suffices
-    per = max([forest_depth(f) for f, _ in lib] + [forest_depth(page)]) + 2
-    return per * (len(lib) + 2) * 2
+def coq_prog(lib, page, mode):
+    return "{| lib := %s; page := %s; iso := %s |}" % (
+        clist(["(%s, %s)" % (cN(i), coq_forest(f)) for i, (f, _m) in enumerate(lib)]), coq_forest(page),
+        C.cbool(mode == "isolated"))
 
 
 # ------------------------------------------------------------------------------------------------
 # implementation side
 # ------------------------------------------------------------------------------------------------
 _uid = [0]
-LOG = []
+LOG = []          # (Component.id, rendered without a parent, ... while another instance is being rendered, pending attr entries)
+
+
+def _log(comp):
+    import django_components.perfutil.component as Pm
+    root = not comp.input.context.get(CTX_KEY, None)
+    LOG.append((comp.id, root, root and len(Pm.component_context_cache) > 0, len(Pm.child_component_attrs)))
 
 
 def build_components(lib):
@@ -123,14 +169,25 @@ def build_components(lib):
     names = ["c14_%d_%d" % (_uid[0], i) for i in range(len(lib))]
     classes = []
     for i, (f, marked) in enumerate(lib):
-        body = src_forest(f, names)
+        ctx = {"prefix": "py%d" % i, "vars": []}
+        body = src_forest(f, names, ctx)
         tpl = ("[[B{{ id }}]]%s[[E{{ id }}]]" % body) if marked else body
+        lazy = [(v, k, via) for v, k, via in ctx["vars"] if via != "before"]
+        before = [(v, k, via) for v, k, via in ctx["vars"] if via == "before"]
 
-        def gcd(self, **kw):
-            LOG.append(self.id)
-            return {"id": self.id}
-        cls = type("C14Comp_%d_%d" % (_uid[0], i), (Component,),
-                   {"template": tpl, "get_context_data": gcd, "__module__": "verif_c14_%d" % _uid[0]})
+        def gcd(self, _lazy=lazy, **kw):
+            _log(self)
+            d = {"id": self.id}
+            for v, k, via in _lazy:
+                d[v] = (lambda k=k, via=via: classes[k].render(render_dependencies=(via == "lazy-deps")))
+            return d
+        attrs = {"template": tpl, "get_context_data": gcd, "__module__": "verif_c14_%d" % _uid[0]}
+        if before:
+            def orb(self, context, template, _before=before):
+                for v, k, via in _before:
+                    context[v] = classes[k].render(render_dependencies=False)
+            attrs["on_render_before"] = orb
+        cls = type("C14Comp_%d_%d" % (_uid[0], i), (Component,), attrs)
         registry.register(names[i], cls)
         classes.append(cls)
     return names, classes
@@ -155,16 +212,21 @@ def ensure_dyn():
     from django_components.components.dynamic import DynamicComponent
 
     class C14Dyn(DynamicComponent):
+        template = "[[B{{ id }}]]" + DynamicComponent.template + "[[E{{ id }}]]"
+
         def get_context_data(self, *a, **k):
-            LOG.append(self.id)
-            return super().get_context_data(*a, **k)
+            _log(self)
+            d = super().get_context_data(*a, **k)
+            d["id"] = self.id
+            return d
     registry.register("c14dyn", C14Dyn)
     _dyn_registered[0] = True
 
 
 def render_impl(lib, page, mode, api):
-    """Returns (html or None, exception class name or None, logged ids)."""
+    """Returns (html or None, exception text or None, log, sizes of the two global tables afterwards)."""
     import djsetup
+    import django_components.perfutil.component as Pm
     from django.template import Context, Template
     ensure_dyn()
     names, classes = build_components(lib)
@@ -178,12 +240,16 @@ def render_impl(lib, page, mode, api):
                 elif api == "python-deps":
                     out = classes[page[0][1]].render(render_dependencies=True, type="fragment")
                 else:
-                    out = Template(src_forest(page, names)).render(Context({}))
-                return str(out), None, list(LOG)
+                    ctx = {"prefix": "pypage", "vars": []}
+                    src = src_forest(page, names, ctx)
+                    data = {v: (lambda k=k, via=via: classes[k].render(render_dependencies=(via == "lazy-deps")))
+                            for v, k, via in ctx["vars"]}
+                    out = Template(src).render(Context(data))
+                return str(out), None, list(LOG), (len(Pm.component_renderer_cache), len(Pm.child_component_attrs))
             except RecursionError:
-                return None, "RecursionError", list(LOG)
+                return None, "RecursionError", list(LOG), None
             except Exception as e:  # noqa
-                return None, type(e).__name__ + ": " + str(e)[:200], list(LOG)
+                return None, type(e).__name__ + ": " + str(e)[:200], list(LOG), None
     finally:
         drop_components(names)
 
@@ -218,8 +284,9 @@ def parse_html(s):
     return p.toks
 
 
-def direct_oracle(toks, logged, has_unlogged):
-    """The property, evaluated on the implementation's output alone. Returns list of failure strings."""
+def direct_oracle(toks, logged, all_marked):
+    """The property, evaluated on the implementation's output alone. Returns list of failure strings.
+    logged: Component.id of every instance, in the order the instances were created."""
     fails = []
     if len(set(logged)) != len(logged):
         fails.append("two instances on the page reported the same Component.id: %r" % (logged,))
@@ -257,13 +324,16 @@ def direct_oracle(toks, logged, has_unlogged):
     for cid in spans:
         if cid not in logged_set:
             fails.append("marker id %s was never reported by Component.id" % cid)
+    if all_marked:
+        for cid in logged:
+            if cid not in spans:
+                fails.append("instance %s (Component.id) has no output in the document" % cid)
     for (i, d, ids) in elems:
         if len(set(ids)) != len(ids):
             fails.append("element carries the same id twice: %r" % (ids,))
-        if not has_unlogged:
-            for x in ids:
-                if x not in logged_set:
-                    fails.append("element carries id %s that no instance reported as Component.id" % x)
+        for x in ids:
+            if x not in logged_set:
+                fails.append("element carries id %s that no instance reported as Component.id" % x)
         for cid, (bi, bd, ei) in spans.items():
             inside = bi < i < ei
             is_root = inside and d == bd
@@ -277,43 +347,57 @@ def direct_oracle(toks, logged, has_unlogged):
 
 def reference_doc(lib, page):
     """Independent executable statement of the property: expand the program (each component instance gets a fresh
-    number), and emit every element with exactly the ids of the instances it is a top-level element of."""
+    number), and emit every element with exactly the ids of the instances it is a top-level element of.
+    Also returns the number of instances and the recursion depth the Coq expansion needs (its fuel)."""
     counter = [0]
+    maxd = [0]
 
-    def walk(forest, env, inherited, out):
-        # inherited: ids carried by top-level elements at this position; env: (fill forest, env of the fill's author) | None
+    def walk(forest, env, inherited, out, d):
+        # inherited: ids carried by top-level elements at this position
+        # env: (fills {slot: forest}, env of the fills' author) | None
+        maxd[0] = max(maxd[0], d)
         for t in forest:
             k = t[0]
             if k == "E":
                 out.append(("open", t[1], list(inherited)))
-                walk(t[2], env, [], out)
+                walk(t[2], env, [], out, d + 1)
                 out.append(("close", t[1]))
             elif k == "C":
                 mine = []
                 for _ in range(2 if t[2] else 1):     # a dynamic component is an instance around the inner instance
                     mine.append(counter[0])
                     counter[0] += 1
-                walk(lib[t[1]][0], (t[3], env) if t[3] else None, inherited + mine, out)
+                fills = {}
+                for s, b, _e in t[3]:
+                    fills.setdefault(s, b)
+                walk(lib[t[1]][0], (fills, env) if t[3] else None, inherited + mine, out, d + 1)
             elif k == "S":
-                if env is not None:
-                    walk(env[0], env[1], inherited, out)
+                if env is not None and t[1] in env[0]:
+                    walk(env[0][t[1]], env[1], inherited, out, d + 1)
                 else:
-                    walk(t[1], env, inherited, out)
+                    walk(t[2], env, inherited, out, d + 1)
             elif k == "R":
                 for _ in range(t[1]):
-                    walk(t[2], env, inherited, out)
+                    walk(t[2], env, inherited, out, d + 1)
+            elif k == "I":
+                if t[1]:
+                    walk(t[2], env, inherited, out, d + 1)
+            elif k == "P":
+                mine = [counter[0]]
+                counter[0] += 1
+                walk(lib[t[1]][0], None, inherited + mine, out, d + 1)
     out = []
-    walk(page, None, [], out)
-    return out, counter[0]
+    walk(page, None, [], out, 1)
+    return out, counter[0], maxd[0] + 2
 
 
-def canon_tokens(toks):
-    """Element tokens with ids renumbered by first appearance (allocation order inside one element)."""
+def canon_tokens(toks, order=None):
+    """Element tokens with ids renumbered by first appearance (creation order inside one element)."""
+    order = order or {}
     m, out = {}, []
     for t in toks:
         if t[0] == "open":
-            fresh = sorted(set(x for x in t[2] if x not in m),
-                           key=lambda x: x if isinstance(x, int) else int(x, 16) if re.fullmatch(r"[0-9a-f]+", x) else 0)
+            fresh = sorted(set(x for x in t[2] if x not in m), key=lambda x: x if isinstance(x, int) else order.get(x, 1 << 30))
             for x in fresh:
                 m[x] = len(m)
             out.append(("open", t[1], sorted(m[x] for x in t[2])))
@@ -372,17 +456,55 @@ def gen_exhaustive(thorough):
     top = shapes(1)
     fills = [[], [E("li")], [T], [Cc(2)]]
     for a, b, c in itertools.product(range(len(top)), range(len(mid)), range(len(leaf))):
-        if not thorough and (a * 7 + b * 3 + c) % 3 != 0:
+        if not thorough and (a * 7 + b * 3 + c) % 4 != 0:
             continue
         for fi, fill in enumerate(fills):
             if not thorough and (a + b + c + fi) % 2:
                 continue
-            lib = [(top[a], True), (mid[b], (a + b) % 4 != 0), (leaf[c], (b + c) % 5 != 0)]
+            lib = [(top[a], True), (mid[b], True), (leaf[c], (b + c) % 11 != 0)]
             yield lib, [E("section", Cc(0, *fill)), Cc(1)], "exh"
 
 
-def gen_forest(rng, size, avail, allow_slot, depth=0):
-    """Random forest; avail = component indices that may be named."""
+def gen_reentrant(thorough):
+    """The layout pattern and its neighbours: comp0 has several root-level items with a component LATER among them,
+    an earlier part forwards comp0's slot into comp1 (or comp1 renders a component from Python); the page fills comp0's
+    slot.  In "isolated" mode the page-level fill content is rendered without a parent component: a complete root run
+    that starts and ends while the attribute entries of comp0's later root components are waiting in the global table."""
+    tops = [
+        [Cc(1, S()), Cc(3)],
+        [Cc(1, S()), E("p"), Cc(3)],
+        [E("div", Cc(1, S())), Cc(3)],
+        [Cc(1, E("ul", S())), Cc(3)],
+        [Cc(1), Cc(3)],
+        [S(), Cc(3)],
+        [Cc(3), Cc(1, S())],
+        [R(2, Cc(1, S())), Cc(3), Cc(3)],
+        [Cc(1, fills=[(1, [S()])]), Cc(3)],
+        [Cc(1, S(), dyn=True), Cc(3, dyn=True)],
+        [Cc(1, fills=[(0, [S(name=1)]), (1, [S()])]), If(1, Cc(3))],
+        [Cc(1, S(Cc(2))), Cc(3)],
+    ]
+    mids = [
+        [E("section", S())], [S()], [S(), E("span")], [E("div", P(2))], [P(2, "before"), S()], [S(name=1)],
+        [E("section", S(), S(Cc(2), name=1))], [Cc(2, S())], [If(1, S()), If(0, S())], [E("p", P(2, "lazy-deps")), Cc(2)],
+    ]
+    leaves = [[E("span")], [], [T], [E("li"), E("li")], [P(3)]]
+    foots = [[E("p")], [E("div"), T, E("span", E("p"))]]
+    fills = [[], [Cc(2)], [E("li"), Cc(2)], [E("div", Cc(2))], [P(2)], [Cc(2, Cc(2))], [Cc(1, Cc(2))]]
+    n = 0
+    for a, b, c, d, fi in itertools.product(range(len(tops)), range(len(mids)), range(len(leaves)), range(len(foots)), range(len(fills))):
+        n += 1
+        if not thorough and (a * 5 + b * 3 + c * 7 + d + fi * 11) % 9 != 0:
+            continue
+        lib = [(tops[a], True), (mids[b], True), (leaves[c], True), (foots[d], True)]
+        yield lib, [Cc(0, *fills[fi])], "reentrant"
+        if (a + b + fi) % 3 == 0:
+            yield lib, [E("section", Cc(0, fills=[(1, fills[fi]), (0, [E("li")] + fills[fi])])), Cc(3)], "reentrant"
+
+
+def gen_forest(rng, size, avail, where, depth=0):
+    """Random forest; avail = component indices that may be named; where = "page" (no slots), "tpl" (component
+    template: slots allowed, also inside fills and slot defaults)."""
     out = []
     n = rng.choice([0, 1, 1, 2, 2, 3]) if depth else rng.choice([0, 1, 1, 2, 2, 3, 4])
     for _ in range(n):
@@ -390,35 +512,56 @@ def gen_forest(rng, size, avail, allow_slot, depth=0):
             break
         size[0] -= 1
         r = rng.random()
-        if r < 0.30 or depth >= 4:
+        if r < 0.27 or depth >= 4:
             if rng.random() < 0.5 or depth >= 4:
                 out.append(E(rng.choice(TAGS), attr=rng.choice(["", "", ' class="k"', ' id="a" data-x'])))
             else:
-                out.append(E(rng.choice(TAGS), *gen_forest(rng, size, avail, allow_slot, depth + 1),
+                out.append(E(rng.choice(TAGS), *gen_forest(rng, size, avail, where, depth + 1),
                              attr=rng.choice(["", "", ' class="k"'])))
-        elif r < 0.42:
+        elif r < 0.36:
             out.append(T)
-        elif r < 0.75 and avail:
+        elif r < 0.66 and avail:
             k = rng.choice(avail)
-            fill = gen_forest(rng, size, avail, False, depth + 1) if rng.random() < 0.45 else []
-            out.append(Cc(k, *fill, dyn=rng.random() < 0.15))
-        elif r < 0.88 and allow_slot:
-            out.append(S(*gen_forest(rng, size, avail, False, depth + 1)))
-        elif r < 0.95:
-            out.append(R(rng.choice([0, 1, 2, 2, 3]), *gen_forest(rng, size, avail, allow_slot, depth + 1)))
+            q = rng.random()
+            if q < 0.45:
+                fills = []
+            elif q < 0.80:
+                fills = [(0, gen_forest(rng, size, avail, where, depth + 1), rng.random() < 0.4)]
+            elif q < 0.90:
+                fills = [(1, gen_forest(rng, size, avail, where, depth + 1), True)]
+            else:
+                fills = [(s, gen_forest(rng, size, avail, where, depth + 1), True) for s in rng.sample([0, 1], 2)]
+            out.append(Cc(k, dyn=rng.random() < 0.12, fills=fills))
+        elif r < 0.80 and where == "tpl":
+            out.append(S(*gen_forest(rng, size, avail, where, depth + 1), name=rng.choice([0, 0, 0, 1])))
+        elif r < 0.86:
+            out.append(R(rng.choice([0, 1, 2, 2, 3]), *gen_forest(rng, size, avail, where, depth + 1)))
+        elif r < 0.91:
+            out.append(If(rng.random() < 0.7, *gen_forest(rng, size, avail, where, depth + 1)))
+        elif r < 0.97 and avail:
+            out.append(P(rng.choice(avail), rng.choice(["lazy", "lazy", "lazy-deps"])))
         else:
             out.append(T)
     return out
 
 
-def gen_random(rng, n):
+def gen_random(rng, n, marked_all=True):
     for _ in range(n):
         nc = rng.choice([1, 2, 3, 3, 4, 5])
         lib = []
+        unmarked = (not marked_all) or rng.random() < 0.04      # a few programs without markers: empty outputs exist
         for k in range(nc):
             avail = list(range(k + 1, nc))
-            lib.append((gen_forest(rng, [rng.choice([2, 4, 6, 8])], avail, True), rng.random() < 0.8))
-        page = gen_forest(rng, [rng.choice([2, 3, 5])], list(range(nc)), False)
+            f = gen_forest(rng, [rng.choice([2, 4, 6, 8])], avail, "tpl")
+            if avail and rng.random() < 0.10:
+                # hook-rendered component (on_render_before), echoed at the start of the template or of an element
+                p = P(rng.choice(avail), "before")
+                if f and f[0][0] == "E" and rng.random() < 0.5:
+                    f[0] = ("E", f[0][1], [p] + f[0][2], f[0][3])
+                else:
+                    f.insert(0, p)
+            lib.append((f, not unmarked))
+        page = gen_forest(rng, [rng.choice([2, 3, 5])], list(range(nc)), "page")
         if not any(t[0] == "C" for t in page):
             page.append(Cc(0))
         yield lib, page, "random"
@@ -429,50 +572,72 @@ def chain_program(depth, shared):
     otherwise each sits inside a <div> of its parent (nesting depth)."""
     lib = []
     for k in range(depth - 1):
-        lib.append(([Cc(k + 1)] if shared else [E("div", Cc(k + 1)), T], k % 7 != 3))
+        lib.append(([Cc(k + 1)] if shared else [E("div", Cc(k + 1)), T], True))
     lib.append(([E("p", E("span")), T, E("div")], True))
     return lib, [Cc(0)]
 
 
 # ------------------------------------------------------------------------------------------------
-def run_case(chk, lib, page, mode, api, kind, terms, cases):
-    html_out, exc, logged = render_impl(lib, page, mode, api)
+def run_case(chk, lib, page, mode, api, kind, terms, cases, ids="counter"):
+    html_out, exc, log, tabs = render_impl(lib, page, mode, api)
     case = {"lib": lib, "page": page, "mode": mode, "api": api}
+    if ids != "counter":
+        case["ids"] = ids
+    key = (repr(lib), repr(page), mode, api, ids)
     if html_out is None:
-        chk.count((repr(lib), repr(page), mode, api), False, kind=kind)
+        chk.count(key, False, kind=kind)
         chk.fail("c14-render-raises" if exc != "RecursionError" else "c14-recursion-limit",
                  "render raised %s" % exc, dict(case, exception=exc))
         return
+    logged = [l[0] for l in log]
     toks = parse_html(html_out)
-    has_dyn = False  # C14Dyn logs its id as well, so every id on the page is logged
-    fails = direct_oracle(toks, logged, has_dyn)
+    all_marked = all(m for _f, m in lib)
+    fails = direct_oracle(toks, logged, all_marked)
     nontriv = measure_nontrivial(toks)
-    chk.count((repr(lib), repr(page), mode, api), nontriv, kind=kind,
-              sample={"page": src_forest(page, ["c%d" % i for i in range(len(lib))]),
-                      "templates": [src_forest(f, ["c%d" % i for i in range(len(lib))]) for f, _ in lib],
-                      "html": html_out[:600]} if (nontriv and kind == "random" and len(html_out) < 900) else None)
-    ctoks = canon_tokens(toks)
-    if not kind.startswith("chain"):
-        ref, ninst = reference_doc(lib, page)
-        if canon_tokens(ref) != ctoks:
-            fails.append("elements / data-djc-id sets differ from the reference (ids on the top-level elements of each instance's output, nowhere else)")
-        elif ninst != len(logged):
-            fails.append("%d instances rendered, %d expected" % (len(logged), ninst))
+    nre = sum(1 for l in log if l[2])
+    npend = sum(1 for l in log if l[2] and l[3] > 0)
+    st = chk.extra.setdefault("reentrancy", {"programs_with_reentrant_root_run": 0, "reentrant_root_runs": 0,
+                                             "programs_with_reentrant_run_while_attr_entries_pending": 0,
+                                             "tables_not_empty_after_render": 0})
+    st["reentrant_root_runs"] += nre
+    st["programs_with_reentrant_root_run"] += 1 if nre else 0
+    st["programs_with_reentrant_run_while_attr_entries_pending"] += 1 if npend else 0
+    if tabs != (0, 0):
+        st["tables_not_empty_after_render"] += 1
+    chk.count(key, nontriv, kind=kind + ("+reent" if npend else ""),
+              sample={"page": show(page, len(lib)), "templates": [show(f, len(lib)) for f, _ in lib], "mode": mode,
+                      "html": html_out[:700]} if (nontriv and npend and kind == "random" and len(html_out) < 1000) else None)
+    order = {x: i for i, x in enumerate(logged)}
+    ctoks = canon_tokens(toks, order)
+    ref, ninst, fuel = reference_doc(lib, page)
+    if canon_tokens(ref) != ctoks:
+        fails.append("elements / data-djc-id sets differ from the reference (ids on the top-level elements of each instance's output, nowhere else)")
+    elif ninst != len(logged):
+        fails.append("%d instances rendered, %d expected" % (len(logged), ninst))
     if fails:
         chk.fail("c14-root-ids", fails[0], dict(case, failures=fails[:5], html=html_out[:4000]))
-    terms.append("(%s, %s, %s, %s)" % (cN(fuel_for(lib, page)), coq_prog(lib, page), coq_obs(ctoks), cN(len(logged))))
-    cases.append(dict(case, html=html_out[:4000], observed=ctoks[:400]))
+    terms.append("(%s, %s, %s, %s, %s)" % (cN(fuel), coq_prog(lib, page, mode), coq_obs(ctoks), cN(len(logged)), cN(nre)))
+    cases.append(dict(case, html=html_out[:4000], observed=ctoks[:400], reentrant_root_runs=nre))
 
 
+SEED_LAYOUT = [([Cc(1, S()), Cc(3)], True), ([E("section", S())], True), ([E("span")], True), ([E("p")], True)]
 CORPUS = [
     # component as root of a component as root of a component, two root elements, text between
     {"lib": [([Cc(1)], True), ([Cc(2)], True), ([E("div"), T, E("span", E("p"))], True)], "page": [Cc(0)]},
     # fill content at the root of the filled component: its elements are roots of the filled instance
     {"lib": [([S()], True), ([E("li")], True)], "page": [E("ul", Cc(0, E("li"), Cc(1)))]},
     # 0 roots / text-only roots below a wrapper
-    {"lib": [([Cc(1), Cc(2)], True), ([], True), ([T], True)], "page": [Cc(0), E("div", Cc(0))]},
+    {"lib": [([Cc(1), Cc(2)], False), ([], False), ([T], False)], "page": [Cc(0), E("div", Cc(0))]},
     # dynamic component as root, in a loop
     {"lib": [([R(2, Cc(1, dyn=True))], True), ([E("p")], True)], "page": [Cc(0)]},
+    # seeded change C14a (child_component_attrs.clear() after a root run), scenario 1: the page fills the layout's slot
+    # with a component, the layout forwards the slot into its first root component; a second root component follows
+    {"lib": SEED_LAYOUT, "page": [Cc(0, Cc(2))]},
+    # ... scenario 2: Component.render() from on_render_before / from a lazily evaluated variable, then a sibling root component
+    {"lib": [([Cc(1), Cc(3)], True), ([E("section", P(2, "before"))], True), ([E("span")], True), ([E("p")], True)], "page": [Cc(0)]},
+    {"lib": [([Cc(1), Cc(3)], True), ([E("section", P(2))], True), ([E("span")], True), ([E("p")], True)], "page": [Cc(0)]},
+    # ... the re-entrant run's output at the ROOT of the forwarding component, three levels of pending entries
+    {"lib": [([Cc(1, S()), Cc(3)], True), ([Cc(2, S()), Cc(3)], True), ([S(), Cc(3)], True), ([E("p")], True)], "page": [Cc(0, Cc(3), E("li"))]},
 ]
 
 
@@ -486,9 +651,10 @@ def run(tier, seed):
     chk.prove()
     thorough = tier == "thorough"
     terms, cases = [], []
+    both = ("django", "isolated")
     # ---- corpus ----
     for c in CORPUS:
-        for mode in ("django", "isolated"):
+        for mode in both:
             run_case(chk, c["lib"], c["page"], mode, "template", "corpus", terms, cases)
     cdir = os.path.join(C.VERIF, "corpus", "C14")
     if os.path.isdir(cdir):
@@ -496,14 +662,18 @@ def run(tier, seed):
             if fn.endswith(".json"):
                 c = _from_json(json.load(open(os.path.join(cdir, fn))))
                 run_case(chk, c["lib"], c["page"], c.get("mode", "django"), c.get("api", "template"), "corpus", terms, cases)
+    # ---- the layout pattern (re-entrant root runs with pending entries), both modes ----
+    for i, (lib, page, kind) in enumerate(gen_reentrant(thorough)):
+        for mode in (both if thorough or i % 3 == 0 else ("isolated",)):
+            run_case(chk, lib, page, mode, "template", kind, terms, cases)
     # ---- exhaustive shapes ----
     for i, (lib, page, kind) in enumerate(gen_exhaustive(thorough)):
         run_case(chk, lib, page, "django" if i % 2 else "isolated", "template", kind, terms, cases)
     # ---- single-root pages through Component.render ----
-    for i, (lib, page, kind) in enumerate(gen_random(chk.rng, 1500 if thorough else 250)):
+    for i, (lib, page, kind) in enumerate(gen_random(chk.rng, 1500 if thorough else 300)):
         run_case(chk, lib, [Cc(0)], "django" if i % 2 else "isolated", "python" if i % 3 else "python-deps", "python-api", terms, cases)
     # ---- random programs ----
-    for i, (lib, page, kind) in enumerate(gen_random(chk.rng, 40000 if thorough else 2500)):
+    for i, (lib, page, kind) in enumerate(gen_random(chk.rng, 40000 if thorough else 5000)):
         run_case(chk, lib, page, "django" if i % 2 else "isolated", "template", kind, terms, cases)
     # ---- chains: nesting depth and shared roots, far beyond the interpreter's recursion limit ----
     for depth, shared in ([(30, True), (30, False), (300, True), (300, False)] +
@@ -512,64 +682,81 @@ def run(tier, seed):
         t0 = time.time()
         run_case(chk, lib, page, "django", "template", "chain%d%s" % (depth, "s" if shared else "n"), terms, cases)
         chk.extra.setdefault("chain_render_s", {})["%d%s" % (depth, "shared" if shared else "nested")] = round(time.time() - t0, 2)
-    bad = C.coq_eval_cases("C14", "doc", IMPORTS, "c14_case", "check_c14", terms, shard=400, timeout=900)
+    # ---- real (random) ids: the library's own id generator, full pipeline ----
+    real_ids(chk, 1500 if thorough else 400, terms, cases)
+    t0 = time.time()
+    bad = C.coq_eval_cases("C14", "doc", IMPORTS, "c14_case", "check_c14", terms, shard=300, timeout=900)
+    chk.extra["coq_eval_programs_s"] = round(time.time() - t0, 1)
     for i in bad[:20]:
-        chk.disagree("PostRender model != implementation (element structure / data-djc-id sets / number of instances)", cases[i])
-    placeholder_differential(chk, 3000 if thorough else 600)
-    # ---- real (random) ids: direct oracle only ----
-    real_ids(chk, 600 if thorough else 120)
+        chk.disagree("PostRender model != implementation (element structure / data-djc-id sets / number of instances / "
+                     "number of re-entrant root runs)", cases[i])
+    t0 = time.time()
+    placeholder_differential(chk, thorough)
+    chk.extra["coq_eval_matcher_s"] = round(time.time() - t0, 1)
+    if thorough:
+        fill_nesting_probe(chk)
     chk.assumptions = [
-        "render ids are distinct (the harness replaces the 62^6 random supply by a counter for the compared runs; a batch with the real generator runs through the direct oracle)",
+        "render ids are distinct (62^6 random supply; the compared runs use a counter, a batch of every run uses the library's own generator)",
         "templates use a tag subset on which djc_core_html_parser is well behaved (div/span/section/p/ul/li, no void elements, no stray end tags, no <script>)",
-        "generated programs: component libraries are acyclic, slots only directly in component templates (not inside fills or slot defaults: that is C01's subject), one default slot name",
+        "generated programs: component libraries are acyclic; slots (two names, one default) occur in component templates only - also inside "
+        "fills and slot defaults there - never in the page template; which fill a slot resolves to is C01's subject (lexical resolution is assumed here and compared)",
         "Component.on_render_after is not overridden (the per-component callback is the identity on HTML)",
+        "the order of the marker attributes inside one tag is not compared (sets)",
     ]
     return chk.finish(
-        rule="programs = library of <=5 components (templates over elements/text/component tags incl. DynamicComponent/default slot with "
-             "default content/implicit fills/for-loops over 0..3 items) + page; exhaustive family: all 3-level libraries over %d x %d x %d "
-             "template shapes (0 roots, text-only, n roots, component as root, slot as root, fills at root, loops, dynamic) x 4 fills%s; "
-             "seeded random programs; single-root pages through Component.render (with and without render_dependencies); chains of depth "
-             "30/300%s both as nested elements and as component-is-root chains; both context_behavior modes. Non-trivial = the output has an "
-             "element shared by >= 2 instances AND an element inside an instance that is not a root. Distinct = distinct (program, mode, api)."
-             % (len(shapes(1)), len(shapes(2)), len(shapes(None)), "" if thorough else " (every 6th in quick)", "/2000" if thorough else ""),
+        rule="programs = library of <=5 components (templates over elements/text/component tags incl. DynamicComponent/two slot names with "
+             "default content/implicit + named fills/slots inside fills and defaults/for-loops over 0..3 items/if/components rendered from "
+             "Python via lazy variable or on_render_before) + page, context_behavior django|isolated; families: corpus (incl. the two scenarios "
+             "of seeded change C14a); the layout pattern (12 x 10 x 5 x 2 x 7 shapes%s: forwarded slots, Python renders, a later root "
+             "component waiting); all 3-level libraries over %d x %d x %d template shapes x 4 fills%s; seeded random programs; single-root "
+             "pages through Component.render (with and without render_dependencies); chains of depth 30/300%s both as nested elements and as "
+             "component-is-root chains; a batch with the library's own random id generator. Non-trivial = the output has an element shared "
+             "by >= 2 instances AND an element inside an instance that is not a root. Distinct = distinct (program, mode, api, id supply). "
+             "kind suffix +reent = a re-entrant root run happened while attribute entries of the interrupted run were pending."
+             % ("" if thorough else " (every 9th in quick)", len(shapes(1)), len(shapes(2)), len(shapes(None)),
+                "" if thorough else " (every 8th in quick)", "/2000" if thorough else ""),
         explanation="theorems of Props/C14.v re-checked by coqc; for every program the Coq model (expand -> page_render = the deferred-render "
-                    "queue) is evaluated by vm_compute and its element tokens with canonically renumbered ids must equal the html.parser view "
-                    "of the implementation's output, and the number of instances must equal the number of Component.id values reported; "
-                    "direct oracle: begin/end markers echoing Component.id delimit each instance's output - every element at the top level "
-                    "of that span carries data-djc-id-<id>, no other element does, ids pairwise distinct, no placeholder survives.",
+                    "queue incl. re-entrant root runs on the shared tables) is evaluated by vm_compute and its element tokens with canonically "
+                    "renumbered ids must equal the html.parser view of the implementation's output, the number of instances must equal the "
+                    "number of Component.id values reported, and the number of re-entrant root runs must equal the number of instances observed "
+                    "to start without a parent while another instance was being rendered; direct oracle on EVERY instance: begin/end markers "
+                    "echoing Component.id delimit each instance's output - every element at the top level of that span carries "
+                    "data-djc-id-<id>, no other element does, every id on an element was reported by some instance, ids pairwise distinct, "
+                    "no placeholder survives; independent Python reference of the expected document.",
         extra_trusted=["harness/gen_c14.py (prints the placeholder regexes, the placeholder text, the id alphabet/length of /repo as Coq literals)",
-                       "modelled, not verified: djc_core_html_parser.set_html_attributes (as: add the attributes to every top-level element "
-                       "and placeholder, report the attributes set on every placeholder), Django template rendering of the generated tags "
-                       "(expand), Python's re on the placeholder pattern (as: split at placeholders), html.parser (harness side)"])
+                       "modelled, not verified: djc_core_html_parser.set_html_attributes (as: add the attributes to every element and "
+                       "placeholder at nesting depth 0, report the attributes set on every placeholder), Django template rendering of the "
+                       "generated tags incl. which context a fill is rendered with (expand), Python's re on the placeholder pattern (as: "
+                       "split at placeholders), html.parser (harness side)"])
 
 
 PIECES = ["<template ", 'djc-render-id="', "abc123", "aB_12Z", "a0001", "a1b2c3d", '"', ">", "</template>", " ", "x",
           ' data-djc-id-a1b2c3=""', "<", "></template>", "\n", "é"]
 
 
-def placeholder_differential(chk, nrandom):
+def placeholder_differential(chk, thorough):
     """Hand matcher of the model (match_placeholder_at) vs Python re compiled from the CURRENT source patterns."""
-    import django_components.perfutil.component as P
+    import django_components.perfutil.component as Pm
     strings = []
     for L in (1, 2, 3):
         for seq in itertools.product(PIECES[:12], repeat=L):
             strings.append("".join(seq))
-    for L in (4, 5, 6, 7):
+    for L in ((4, 5, 6, 7) if thorough else (4, 5)):
         for seq in itertools.product([0, 1, 2, 6, 7, 9, 11, 13], repeat=L):
             if seq[0] == 0 and 1 in seq:
                 strings.append("".join(PIECES[i] for i in seq))
-    for _ in range(nrandom):
+    for _ in range(3000 if thorough else 1200):
         strings.append("".join(chk.rng.choice(PIECES[:15]) for _ in range(chk.rng.randint(3, 12))))
     strings.append('<template djc-render-id="a1b2c3" data-djc-id-Zz0Zz0="" data-djc-id-000000=""></template><p>')
     terms, kept = [], []
     for s in strings:
         if any(ord(c) > 127 for c in s):
             continue
-        m = P.nested_comp_pattern.match(s)
+        m = Pm.nested_comp_pattern.match(s)
         if m is None:
             exp = "None"
         else:
-            g = P.render_id_pattern.search(m[0])
+            g = Pm.render_id_pattern.search(m[0])
             if g is None:
                 chk.fail("c14-placeholder-regex", "nested_comp_pattern matched but render_id_pattern found no id", {"text": s})
                 continue
@@ -577,31 +764,53 @@ def placeholder_differential(chk, nrandom):
         chk.count(("ph", s), m is not None, kind="matcher")
         terms.append("(%s, %s)" % (C.cstr(s), exp))
         kept.append(s)
-    bad = C.coq_eval_cases("C14", "ph", IMPORTS, "ph_case", "check_ph", terms, shard=3000)
+    bad = C.coq_eval_cases("C14", "ph", IMPORTS, "ph_case", "check_ph", terms, shard=3000 if thorough else 500)
     for i in bad[:10]:
         chk.disagree("hand matcher of the placeholder patterns != Python re on the current source patterns", {"text": kept[i]})
 
 
-def real_ids(chk, n):
-    """Same programs with the library's own id generator (restored for this batch)."""
+def real_ids(chk, n, terms, cases):
+    """Programs rendered with the library's own id generator (restored for this batch): full pipeline."""
     import django_components.util.misc as misc
     import django_components.util.nanoid as nanoid
     saved = misc.generate
     misc.generate = nanoid.generate
     try:
+        for c in CORPUS:
+            run_case(chk, c["lib"], c["page"], "isolated", "template", "real-ids", terms, cases, ids="real")
         for i, (lib, page, kind) in enumerate(gen_random(chk.rng, n)):
-            mode = "django" if i % 2 else "isolated"
-            html_out, exc, logged = render_impl(lib, page, mode, "template")
-            case = {"lib": lib, "page": page, "mode": mode, "api": "template", "ids": "real"}
-            chk.count((repr(lib), repr(page), mode, "real"), html_out is not None and measure_nontrivial(parse_html(html_out)), kind="real-ids")
-            if html_out is None:
-                chk.fail("c14-render-raises", "render raised %s" % exc, dict(case, exception=exc))
-                continue
-            fails = direct_oracle(parse_html(html_out), logged, False)
-            if fails:
-                chk.fail("c14-root-ids", fails[0], dict(case, failures=fails[:5], html=html_out[:4000]))
+            run_case(chk, lib, page, "django" if i % 2 else "isolated", "template", "real-ids", terms, cases, ids="real")
     finally:
         misc.generate = saved
+
+
+def fill_nesting_probe(chk):
+    """Observation (not a verdict): components nested through fills in a NON-component template. In "isolated" mode each
+    level is a re-entrant root run, i.e. real Python recursion; in "django" mode the limit is Django's own recursive
+    rendering of nested block tags."""
+    import djsetup
+    from django.template import Context, Template
+    lib = [([E("div", S())], True), ([E("span")], True)]
+    names, classes = build_components(lib)
+    res = {}
+    try:
+        for mode in ("isolated", "django"):
+            ok = 0
+            for depth in (10, 20, 30, 40, 50, 60, 80, 100, 150, 200, 300):
+                src = ('{%% component "%s" %%}' % names[0]) * depth + ('{%% component "%s" / %%}' % names[1]) + "{% endcomponent %}" * depth
+                with djsetup.components_settings(context_behavior=mode):
+                    try:
+                        Template(src).render(Context({}))
+                        ok = depth
+                    except RecursionError:
+                        break
+                    except Exception as e:  # noqa
+                        res[mode + "_error"] = type(e).__name__
+                        break
+            res[mode + "_deepest_ok"] = ok
+    finally:
+        drop_components(names)
+    chk.extra["page_level_fill_nesting_probe"] = res
 
 
 def _from_json(o):
@@ -614,11 +823,15 @@ def _from_json(o):
             elif t[0] == "T":
                 out.append(T)
             elif t[0] == "C":
-                out.append(("C", t[1], t[2], fix(t[3])))
+                out.append(("C", t[1], t[2], [(x[0], fix(x[1]), x[2]) for x in t[3]]))
             elif t[0] == "S":
-                out.append(("S", fix(t[1])))
-            else:
+                out.append(("S", t[1], fix(t[2])))
+            elif t[0] == "R":
                 out.append(("R", t[1], fix(t[2])))
+            elif t[0] == "I":
+                out.append(("I", t[1], fix(t[2])))
+            else:
+                out.append(("P", t[1], t[2]))
         return out
     o = dict(o)
     o["lib"] = [(fix(f), m) for f, m in o["lib"]]
@@ -629,28 +842,34 @@ def _from_json(o):
 def replay(path):
     import djsetup
     djsetup.setup()
-    djsetup.patch_ids()
     r = json.load(open(path))
     case = r.get("case", {})
     print(json.dumps({k: v for k, v in r.items() if k != "case"}, indent=1)[:2000])
     if "lib" not in case:
         return 0
     c = _from_json(case)
-    names = ["c%d" % i for i in range(len(c["lib"]))]
+    if c.get("ids") != "real":
+        djsetup.patch_ids()
+    n = len(c["lib"])
     for i, (f, m) in enumerate(c["lib"]):
-        print("component c%d%s: %s" % (i, " (marked)" if m else "", src_forest(f, names)))
-    print("page:", src_forest(c["page"], names), " mode:", c.get("mode"), " api:", c.get("api"))
-    html_out, exc, logged = render_impl(c["lib"], c["page"], c.get("mode", "django"), c.get("api", "template"))
+        print("component c%d%s: %s" % (i, " (marked)" if m else "", show(f, n)))
+    print("page:", show(c["page"], n), " mode:", c.get("mode"), " api:", c.get("api"))
+    html_out, exc, log, tabs = render_impl(c["lib"], c["page"], c.get("mode", "django"), c.get("api", "template"))
     print("implementation:", html_out if html_out is not None else exc)
-    print("Component.id values:", logged)
+    print("instances (Component.id, root run, re-entrant, pending attr entries):", log)
     if html_out is not None:
+        logged = [l[0] for l in log]
         toks = parse_html(html_out)
-        fails = direct_oracle(toks, logged, False)
+        fails = direct_oracle(toks, logged, all(m for _f, m in c["lib"]))
+        ctoks = canon_tokens(toks, {x: i for i, x in enumerate(logged)})
+        ref, ninst, fuel = reference_doc(c["lib"], c["page"])
+        if canon_tokens(ref) != ctoks:
+            fails.append("elements / data-djc-id sets differ from the reference")
         print("direct oracle:", fails or "holds")
-        print("observed (canonical):", canon_tokens(toks))
+        print("observed (canonical):", ctoks)
         bad = C.coq_eval_cases("C14", "replay", IMPORTS, "c14_case", "check_c14",
-                               ["(%s, %s, %s, %s)" % (cN(fuel_for(c["lib"], c["page"])), coq_prog(c["lib"], c["page"]),
-                                                     coq_obs(canon_tokens(toks)), cN(len(logged)))])
+                               ["(%s, %s, %s, %s, %s)" % (cN(fuel), coq_prog(c["lib"], c["page"], c.get("mode", "django")),
+                                                         coq_obs(ctoks), cN(len(logged)), cN(sum(1 for l in log if l[2])))])
         print("model agrees:", not bad)
         return 1 if (fails or bad) else 0
     return 1
